@@ -3,7 +3,8 @@ import Driver.Proto
 namespace Driver.C11
 open ArrModel Driver
 
-def handle (op : String) (args : List String) : Option String :=
+/-- one call -/
+def handle1 (op : String) (args : List String) : Option String :=
   match op, args with
   | "append", [a, v, ax] => do
     let a ← parseArr? a; let v ← parseArr? v; let ax ← parseOpt? parseNat? ax
@@ -35,7 +36,42 @@ def handle (op : String) (args : List String) : Option String :=
   | "split_concat", [a, p, ax] => do
     let a ← parseArr? a; let p ← parseNat? p; let ax ← parseNat? ax
     some (showRes showArr (a.arraySplit 0 p (some ax) >>= fun ps => Arr.concatenate ps 0 (some ax)))
+  -- aliasing: the receiver itself is passed as the `values` argument (`a.append(&a, axis)`)
+  | "append_self", [a, ax] => do
+    let a ← parseArr? a; let ax ← parseOpt? parseNat? ax
+    some (showRes showArr (a.append a 0 ax))
   | _, _ => none
+
+/-- the token list cut at every separator token -/
+def splitTok (sep : String) : List String → List (List String)
+  | [] => [[]]
+  | x :: xs =>
+    match splitTok sep xs with
+    | [] => [[x]]
+    | g :: gs => if x == sep then [] :: g :: gs else (x :: g) :: gs
+
+/-- spellings added for the robustness streams (part 2); every compared answer still comes from `handle1`, i.e. from the very
+model definitions:
+* `n call…` — arrays on which the list-backed model is too slow (joining is quadratic: 8.7 s for two [130,100] arrays, 35 s for
+  an `array_split` of 65 546 elements): the driver answers `ok native` and the harness judges the crate by its native
+  block-placement reference, which it compares with the full answer of `handle1` on every other case of the same run
+  (`oracle_report` lines);
+* `seq call / call / …` — several calls executed one after the other on the same thread (hidden-state streams: colliding shapes
+  and colliding (axis length, part count) pairs back to back, a refused call followed by a valid one, A–B–A); the model is a
+  function, so every call is answered on its own. -/
+def handleOne (op : String) (args : List String) : Option String :=
+  match op, args with
+  | "n", _ :: _ => some "ok native"
+  | "oracle_report", _ => some "ok report"
+  | _, _ => handle1 op args
+
+def handle (op : String) (args : List String) : Option String :=
+  match op, args with
+  | "seq", _ => do
+    let parts := splitTok "/" args
+    let answers ← parts.mapM (fun p => match p with | o :: as => handleOne o as | [] => none)
+    some (" / ".intercalate answers)
+  | _, _ => handleOne op args
 
 end Driver.C11
 
